@@ -212,4 +212,744 @@ theorem lastSome_append_single {α} (l : List (Option α)) (x : Option α) :
     simp only [List.cons_append, lastSome, ih]
     cases x <;> simp
 
+/-- the fold of `get_broadcast`: distinct keys are kept, the last defining source wins -/
+theorem get_fold (st : Store) (hst : NodupKeys st) (path : Path) :
+    ∀ (srcs : List (String × String)) (acc : AList Path), NodupKeys acc →
+      NodupKeys (srcs.foldl (fun acc (cn : String × String) => upsertAll acc (entriesOf st cn.1 cn.2)) acc) ∧
+      lookup (srcs.foldl (fun acc (cn : String × String) => upsertAll acc (entriesOf st cn.1 cn.2)) acc) path =
+        match lastSome (srcs.map fun cn => lookup st ⟨cn.1, cn.2, path⟩) with
+        | some v => some v
+        | none => lookup acc path := by
+  intro srcs
+  induction srcs with
+  | nil => intro acc h; exact ⟨h, by simp [lastSome]⟩
+  | cons cn r ih =>
+    intro acc hacc
+    simp only [List.foldl_cons, List.map_cons, lastSome]
+    have hn := nodup_upsertAll (entriesOf st cn.1 cn.2) hacc
+    obtain ⟨h1, h2⟩ := ih (upsertAll acc (entriesOf st cn.1 cn.2)) hn
+    refine ⟨h1, ?_⟩
+    rw [h2, lookup_upsertAll _ (nodup_entriesOf hst cn.1 cn.2), lookup_entriesOf]
+    cases lastSome (r.map fun cn => lookup st ⟨cn.1, cn.2, path⟩) with
+    | some v => rfl
+    | none => cases lookup st ⟨cn.1, cn.2, path⟩ <;> rfl
+
+/-! ### the `key` column -/
+
+/-- no `[` or `]` in the text -/
+def NoBr (s : String) : Prop := ∀ ch ∈ s.toList, ch ≠ '[' ∧ ch ≠ ']'
+
+/-- a key path the `key` column can represent: not empty, no brackets in any component, section
+names not empty -/
+def SafePath : Path → Prop
+  | [] => False
+  | [k] => NoBr k
+  | s :: r => NoBr s ∧ s ≠ "" ∧ SafePath r
+
+instance (s : String) : Decidable (NoBr s) := by unfold NoBr; infer_instance
+
+instance decSafePath : (p : Path) → Decidable (SafePath p)
+  | [] => isFalse (fun h => h)
+  | [k] => (inferInstance : Decidable (NoBr k))
+  | s :: t :: r =>
+    have := decSafePath (t :: r)
+    (inferInstance : Decidable (NoBr s ∧ s ≠ "" ∧ SafePath (t :: r)))
+
+theorem findSections_noOpen : ∀ (l : List Char), (∀ ch ∈ l, ch ≠ '[') → findSections l none = [] := by
+  intro l
+  induction l with
+  | nil => intro _; rfl
+  | cons c r ih =>
+    intro h
+    have hc : c ≠ '[' := h c (by simp)
+    simp only [findSections, hc, if_false]
+    exact ih (fun ch hch => h ch (by simp [hch]))
+
+/-- inside a group: the body grows until the closing bracket -/
+theorem findSections_inside : ∀ (body : List Char) (acc rest : List Char),
+    (∀ ch ∈ body, ch ≠ ']') →
+    findSections (body ++ ']' :: rest) (some acc) =
+      if (body.reverse ++ acc).isEmpty then findSections rest none
+      else String.ofList (body.reverse ++ acc).reverse :: findSections rest none := by
+  intro body
+  induction body with
+  | nil => intro acc rest _; simp [findSections]
+  | cons c r ih =>
+    intro acc rest h
+    have hc : c ≠ ']' := h c (by simp)
+    simp only [List.cons_append, findSections, hc, if_false]
+    rw [ih (c :: acc) rest (fun ch hch => h ch (by simp [hch]))]
+    simp
+
+theorem takeWhile_all {α} (p : α → Bool) : ∀ (l : List α), (∀ x ∈ l, p x = true) → l.takeWhile p = l := by
+  intro l
+  induction l with
+  | nil => intro _; rfl
+  | cons a r ih =>
+    intro h
+    simp only [List.takeWhile_cons, h a (by simp), if_true]
+    rw [ih (fun x hx => h x (by simp [hx]))]
+
+theorem takeWhile_stop {α} (p : α → Bool) : ∀ (l : List α) (b : α) (r : List α),
+    (∀ x ∈ l, p x = true) → p b = false → (l ++ b :: r).takeWhile p = l := by
+  intro l
+  induction l with
+  | nil => intro b r _ hb; simp [List.takeWhile_cons, hb]
+  | cons a t ih =>
+    intro b r h hb
+    simp only [List.cons_append, List.takeWhile_cons, h a (by simp), if_true]
+    rw [ih b r (fun x hx => h x (by simp [hx])) hb]
+
+theorem afterLast_noClose (l : List Char) (h : ∀ ch ∈ l, ch ≠ ']') : afterLastBracket l = l := by
+  unfold afterLastBracket
+  rw [takeWhile_all, List.reverse_reverse]
+  intro ch hch
+  simpa using h ch (by simpa using hch)
+
+theorem afterLast_append (a rest : List Char) (h : ∀ ch ∈ rest, ch ≠ ']') :
+    afterLastBracket (a ++ ']' :: rest) = rest := by
+  unfold afterLastBracket
+  have : (a ++ ']' :: rest).reverse = rest.reverse ++ ']' :: a.reverse := by simp
+  rw [this, takeWhile_stop, List.reverse_reverse]
+  · intro ch hch
+    simpa using h ch (by simpa using hch)
+  · simp
+
+
+theorem renderKey_cons2 (s t : String) (r : Path) :
+    (renderKey (s :: t :: r)).toList = '[' :: (s.toList ++ ']' :: (renderKey (t :: r)).toList) := by
+  simp [renderKey]
+
+/-- what the parser needs from a rendered safe path -/
+theorem render_facts : ∀ (p : Path), SafePath p →
+    findSections (renderKey p).toList none = p.dropLast ∧
+    (∃ pre, (renderKey p).toList = pre ++ (p.getLast?.getD "").toList ∧
+        (p.length ≥ 2 → ∃ pre', pre = pre' ++ [']']) ∧ (p.length < 2 → pre = [])) ∧
+    NoBr (p.getLast?.getD "") := by
+  intro p
+  induction p with
+  | nil => intro h; exact h.elim
+  | cons s r ih =>
+    intro h
+    cases r with
+    | nil =>
+      have hs : NoBr s := h
+      refine ⟨?_, ⟨[], by simp [renderKey], by simp, by simp⟩, by simpa using hs⟩
+      simp only [renderKey, List.dropLast_singleton]
+      exact findSections_noOpen _ (fun ch hch => (hs ch hch).1)
+    | cons t r' =>
+      obtain ⟨hs, hne, hr⟩ : NoBr s ∧ s ≠ "" ∧ SafePath (t :: r') := h
+      obtain ⟨ih1, ⟨pre, ih2, ih3, ih4⟩, ih5⟩ := ih hr
+      refine ⟨?_, ⟨'[' :: (s.toList ++ ']' :: pre), ?_, ?_, by simp⟩, by simpa using ih5⟩
+      · rw [renderKey_cons2]
+        simp only [findSections, if_true]
+        rw [findSections_inside s.toList [] _ (fun ch hch => (hs ch hch).2)]
+        have hsne : s.toList ≠ [] := by
+          intro h0
+          apply hne
+          have := congrArg String.ofList h0
+          simpa using this
+        simp only [List.append_nil, List.isEmpty_reverse, List.reverse_reverse]
+        have : s.toList.isEmpty = false := by
+          cases hl : s.toList with
+          | nil => exact (hsne hl).elim
+          | cons _ _ => rfl
+        rw [this]
+        simp [ih1, List.dropLast]
+      · rw [renderKey_cons2, ih2]
+        simp
+      · intro _
+        by_cases hlen : (t :: r').length ≥ 2
+        · obtain ⟨pre', hp⟩ := ih3 hlen
+          exact ⟨'[' :: (s.toList ++ ']' :: pre'), by simp [hp]⟩
+        · have := ih4 (by omega)
+          exact ⟨'[' :: s.toList, by simp [this]⟩
+
+
+/-- the `key` column round-trips for safe key paths -/
+theorem parse_render (p : Path) (h : SafePath p) : parseKey (renderKey p) = p := by
+  obtain ⟨h1, ⟨pre, h2, h3, h4⟩, h5⟩ := render_facts p h
+  unfold parseKey
+  by_cases hlen : p.length ≥ 2
+  · obtain ⟨pre', hp⟩ := h3 hlen
+    have hcs : (renderKey p).toList = pre' ++ ']' :: (p.getLast?.getD "").toList := by
+      rw [h2, hp]; simp
+    have hcont : (renderKey p).toList.contains ']' = true := by
+      rw [hcs]; simp
+    simp only [hcont, if_true, h1]
+    rw [hcs, afterLast_append _ _ (fun ch hch => (h5 ch hch).2)]
+    simp only [String.ofList_toList]
+    cases p with
+    | nil => simp at hlen
+    | cons a r =>
+      have hne : (a :: r) ≠ [] := by simp
+      rw [List.getLast?_eq_some_getLast hne]
+      simp only [Option.getD_some]
+      exact List.dropLast_concat_getLast hne
+  · have hpre := h4 (by omega)
+    cases p with
+    | nil => exact h.elim
+    | cons a r =>
+      cases r with
+      | cons _ _ => simp at hlen
+      | nil =>
+        have hk : NoBr a := h
+        have hcont : (renderKey [a]).toList.contains ']' = false := by
+          simp only [renderKey]
+          rw [List.contains_eq_any_beq]
+          simp only [List.any_eq_false, beq_iff_eq]
+          intro ch hch heq
+          exact (hk ch hch).2 heq.symm
+        simp only [renderKey] at hcont ⊢
+        simp only [hcont, Bool.false_eq_true, if_false]
+
+
+/-! ### persistence -/
+
+def renderK (k : Key) : DbKey := ⟨k.point, k.ns, renderKey k.path⟩
+def parseK (d : DbKey) : Key := ⟨d.point, d.ns, parseKey d.key⟩
+def SafeKey (k : Key) : Prop := SafePath k.path
+
+theorem parseK_renderK (k : Key) (h : SafeKey k) : parseK (renderK k) = k := by
+  obtain ⟨p, n, path⟩ := k
+  simp only [parseK, renderK, parse_render path h]
+
+theorem renderK_inj {k k' : Key} (h : SafeKey k) (h' : SafeKey k') (he : renderK k = renderK k') : k = k' := by
+  rw [← parseK_renderK k h, ← parseK_renderK k' h', he]
+
+theorem lookup_append (a b : AList κ) (q : κ) : lookup (a ++ b) q = (lookup a q).orElse fun _ => lookup b q := by
+  induction a with
+  | nil => simp [lookup]
+  | cons e r ih =>
+    obtain ⟨k, v⟩ := e
+    simp only [List.cons_append, lookup, ih]
+    by_cases hk : k = q <;> simp [hk]
+
+theorem mem_of_lookup {s : AList κ} {q : κ} {v : String} (h : lookup s q = some v) : (q, v) ∈ s := by
+  induction s with
+  | nil => simp [lookup] at h
+  | cons e r ih =>
+    obtain ⟨k, v'⟩ := e
+    simp only [lookup] at h
+    by_cases hk : k = q
+    · subst hk
+      simp only [if_true, Option.some.injEq] at h
+      subst h
+      simp
+    · simp only [hk, if_false] at h
+      simp [ih h]
+
+theorem lookup_of_mem {s : AList κ} (hn : NodupKeys s) {q : κ} {v : String} (h : (q, v) ∈ s) : lookup s q = some v := by
+  induction s with
+  | nil => cases h
+  | cons e r ih =>
+    obtain ⟨k, v'⟩ := e
+    unfold NodupKeys at hn
+    simp only [List.map_cons, List.nodup_cons] at hn
+    simp only [lookup]
+    rcases List.mem_cons.1 h with h1 | h1
+    · injection h1 with h2 h3
+      subst h2; subst h3
+      simp
+    · have hne : k ≠ q := by
+        intro hk; subst hk
+        exact hn.1 (List.mem_map.2 ⟨(k, v), h1, rfl⟩)
+      simp only [hne, if_false]
+      exact ih hn.2 h1
+
+theorem lookup_ext_of_mem {κ' : Type} [DecidableEq κ'] {a : AList κ} {b : AList κ'} (ha : NodupKeys a) (hb : NodupKeys b)
+    {q : κ} {q' : κ'} (h : ∀ v, (q, v) ∈ a ↔ (q', v) ∈ b) : lookup a q = lookup b q' := by
+  cases h1 : lookup a q with
+  | some v =>
+    exact (lookup_of_mem hb ((h v).1 (mem_of_lookup h1))).symm
+  | none =>
+    cases h2 : lookup b q' with
+    | none => rfl
+    | some v =>
+      have := lookup_of_mem ha ((h v).2 (mem_of_lookup h2))
+      rw [h1] at this; cases this
+
+/-- what the `broadcast_states` table will hold for key `q` once the pending operations are written:
+the last pending insert, else nothing if a delete is pending, else the current row -/
+def dbView (db : Db) (q : DbKey) : Option String :=
+  (lookup db.inss.reverse q).orElse fun _ => if db.dels.contains q then none else lookup db.rows q
+
+theorem dbView_insert (db : Db) (a : DbKey) (v : String) (q : DbKey) :
+    dbView { db with inss := db.inss ++ [(a, v)] } q = if a = q then some v else dbView db q := by
+  simp only [dbView, List.reverse_append, List.reverse_cons, List.reverse_nil, List.nil_append,
+    List.singleton_append, lookup]
+  by_cases h : a = q <;> simp [h]
+
+theorem dbView_clear1 (db : Db) (dk q : DbKey) :
+    dbView { db with dels := db.dels ++ [dk], inss := db.inss.filter fun e => e.1 != dk } q =
+      if q = dk then none else dbView db q := by
+  simp only [dbView]
+  have hrev : (db.inss.filter fun e => e.1 != dk).reverse = db.inss.reverse.filter fun e => (fun k => k != dk) e.1 := by
+    rw [List.filter_reverse]
+  rw [hrev, lookup_filter_key (fun k => k != dk)]
+  by_cases h : q = dk
+  · subst h
+    simp
+  · have h' : (q != dk) = true := by simpa using h
+    have hc : (db.dels ++ [dk]).contains q = db.dels.contains q := by
+      simp [List.contains_eq_any_beq, List.any_append, h]
+    simp only [h', if_true, h, if_false, hc]
+
+theorem dbView_recordClear (removed : List (Key × String)) : ∀ (db : Db) (q : DbKey),
+    dbView (db.recordClear removed) q = if q ∈ removed.map (fun e => renderK e.1) then none else dbView db q := by
+  induction removed with
+  | nil => intro db q; simp [Db.recordClear]
+  | cons e r ih =>
+    intro db q
+    have hstep : db.recordClear (e :: r) =
+        Db.recordClear { db with dels := db.dels ++ [renderK e.1],
+                                 inss := db.inss.filter fun x => x.1 != renderK e.1 } r := by
+      obtain ⟨k, v⟩ := e
+      simp [Db.recordClear, renderK]
+    rw [hstep, ih, dbView_clear1]
+    simp only [List.map_cons, List.mem_cons]
+    by_cases h1 : q ∈ r.map (fun e => renderK e.1) <;> by_cases h2 : q = renderK e.1 <;> simp [h1, h2]
+
+theorem recordClear_rows (removed : List (Key × String)) : ∀ (db : Db), (db.recordClear removed).rows = db.rows := by
+  induction removed with
+  | nil => intro db; rfl
+  | cons e r ih =>
+    intro db
+    simp only [Db.recordClear, List.foldl_cons] at ih ⊢
+    rw [ih]
+
+theorem lookup_replaceRow (rows : AList DbKey) (k q : DbKey) (v : String) :
+    lookup (replaceRow rows k v) q = if k = q then some v else lookup rows q := by
+  unfold replaceRow
+  rw [lookup_append, lookup_filter_key (fun x => x != k)]
+  by_cases h : k = q
+  · subst h; simp [lookup]
+  · have : (q != k) = true := by simpa using (fun hh => h hh.symm)
+    simp [this, h, lookup]
+
+theorem lookup_foldl_replaceRow (inss : List (DbKey × String)) : ∀ (base : AList DbKey) (q : DbKey),
+    lookup (inss.foldl (fun acc (e : DbKey × String) => replaceRow acc e.1 e.2) base) q =
+      (lookup inss.reverse q).orElse fun _ => lookup base q := by
+  induction inss with
+  | nil => intro base q; simp [lookup]
+  | cons e r ih =>
+    intro base q
+    obtain ⟨k, v⟩ := e
+    simp only [List.foldl_cons, List.reverse_cons]
+    rw [ih, lookup_replaceRow, lookup_append]
+    simp only [lookup]
+    by_cases h : k = q
+    · simp [h]
+    · simp [h]
+
+theorem lookup_flush (db : Db) (q : DbKey) : lookup db.flush.rows q = dbView db q := by
+  unfold Db.flush dbView
+  simp only
+  have := lookup_foldl_replaceRow db.inss (db.rows.filter fun e => !db.dels.contains e.1) q
+  rw [show (db.inss.foldl (fun acc (x : DbKey × String) => match x with | (k, v) => replaceRow acc k v)
+        (db.rows.filter fun e => !db.dels.contains e.1)) =
+      db.inss.foldl (fun acc (e : DbKey × String) => replaceRow acc e.1 e.2) (db.rows.filter fun e => !db.dels.contains e.1) from rfl]
+  rw [this, lookup_filter_key (fun k => !db.dels.contains k)]
+  cases db.dels.contains q <;> simp
+
+theorem dbView_flush (db : Db) (q : DbKey) : dbView db.flush q = dbView db q := by
+  rw [← lookup_flush db q]
+  simp [dbView, Db.flush, lookup]
+
+theorem nodup_replaceRow {rows : AList DbKey} (h : NodupKeys rows) (k : DbKey) (v : String) :
+    NodupKeys (replaceRow rows k v) := by
+  unfold NodupKeys replaceRow at *
+  rw [List.map_append, List.nodup_append]
+  refine ⟨?_, by simp, ?_⟩
+  · exact List.Nodup.sublist (List.Sublist.map _ List.filter_sublist) h
+  · intro a ha b hb
+    simp only [List.map_cons, List.map_nil, List.mem_singleton] at hb
+    subst hb
+    rw [List.mem_map] at ha
+    obtain ⟨e, he, rfl⟩ := ha
+    have := (List.mem_filter.1 he).2
+    simpa using this
+
+theorem nodup_flush {db : Db} (h : NodupKeys db.rows) : NodupKeys db.flush.rows := by
+  unfold Db.flush
+  simp only
+  have hbase : NodupKeys (db.rows.filter fun e => !db.dels.contains e.1) :=
+    List.Nodup.sublist (List.Sublist.map _ List.filter_sublist) h
+  generalize (db.rows.filter fun e => !db.dels.contains e.1) = base at hbase
+  induction db.inss generalizing base with
+  | nil => exact hbase
+  | cons e r ih =>
+    simp only [List.foldl_cons]
+    exact ih _ (nodup_replaceRow hbase e.1 e.2)
+
+/-- The database (with its pending operations applied) holds exactly the store, item by item. -/
+structure Persist (s : State) : Prop where
+  view : ∀ k, SafeKey k → dbView s.db (renderK k) = lookup s.store k
+  image : ∀ q, dbView s.db q ≠ none → ∃ k, SafeKey k ∧ q = renderK k
+  safe : ∀ k ∈ s.store.map (·.1), SafeKey k
+  rowsNodup : NodupKeys s.db.rows
+  storeNodup : NodupKeys s.store
+
+theorem persist_init : Persist {} := by
+  refine ⟨fun k _ => rfl, fun q h => ?_, fun k h => (by cases h), (by simp [NodupKeys]), (by simp [NodupKeys])⟩
+  simp [dbView, lookup] at h
+
+theorem persist_upsertAll (L : List (Key × String)) : ∀ (st : Store) (db : Db),
+    (∀ e ∈ L, SafeKey e.1) → Persist ⟨st, db⟩ →
+    Persist ⟨upsertAll st L, { db with inss := db.inss ++ L.map fun e => (renderK e.1, e.2) }⟩ := by
+  induction L with
+  | nil => intro st db _ h; simpa [upsertAll] using h
+  | cons e r ih =>
+    intro st db hL h
+    obtain ⟨k, v⟩ := e
+    have hk : SafeKey k := hL (k, v) (by simp)
+    have hstep : Persist ⟨upsert st k v, { db with inss := db.inss ++ [(renderK k, v)] }⟩ := by
+      refine ⟨?_, ?_, ?_, h.rowsNodup, nodup_upsert h.storeNodup k v⟩
+      · intro k' hk'
+        show dbView { db with inss := db.inss ++ [(renderK k, v)] } (renderK k') = lookup (upsert st k v) k'
+        rw [dbView_insert, lookup_upsert]
+        by_cases he : k = k'
+        · subst he; simp
+        · have : renderK k ≠ renderK k' := fun hh => he (renderK_inj hk hk' hh)
+          simp only [this, if_false, he]
+          exact h.view k' hk'
+      · intro q hq
+        have hq' : dbView { db with inss := db.inss ++ [(renderK k, v)] } q ≠ none := hq
+        rw [dbView_insert] at hq'
+        by_cases he : renderK k = q
+        · exact ⟨k, hk, he.symm⟩
+        · simp only [he, if_false] at hq'
+          exact h.image q hq'
+      · intro k' hk'
+        rcases (keys_upsert st k v k').1 hk' with h1 | h1
+        · rw [h1]; exact hk
+        · exact h.safe k' h1
+    have := ih (upsert st k v) { db with inss := db.inss ++ [(renderK k, v)] }
+      (fun e he => hL e (by simp [he])) hstep
+    simpa [upsertAll, List.append_assoc] using this
+
+theorem persist_clear (st : Store) (db : Db) (f : Filter) (h : Persist ⟨st, db⟩) :
+    Persist ⟨(clear st f).1, db.recordClear (clear st f).2⟩ := by
+  have hsub : ∀ k, k ∈ ((clear st f).1).map (·.1) → k ∈ st.map (·.1) := by
+    intro k hk
+    simp only [clear, List.mem_map, List.mem_filter] at hk ⊢
+    obtain ⟨e, ⟨he, _⟩, rfl⟩ := hk
+    exact ⟨e, he, rfl⟩
+  refine ⟨?_, ?_, fun k hk => h.safe k (hsub k hk), ?_, ?_⟩
+  · intro k hk
+    show dbView (db.recordClear (clear st f).2) (renderK k) = lookup (clear st f).1 k
+    rw [dbView_recordClear]
+    have hl : lookup (clear st f).1 k = if f.hits k then none else lookup st k := by
+      have := lookup_filter_key (fun k => !f.hits k) st k
+      simp only [clear]
+      rw [this]
+      cases f.hits k <;> simp
+    rw [hl, h.view k hk]
+    by_cases hm : renderK k ∈ (clear st f).2.map (fun e => renderK e.1)
+    · simp only [hm, if_true]
+      obtain ⟨e, he, heq⟩ := List.mem_map.1 hm
+      simp only [clear, List.mem_filter] at he
+      have hes : SafeKey e.1 := h.safe e.1 (List.mem_map.2 ⟨e, he.1, rfl⟩)
+      have : e.1 = k := renderK_inj hes hk heq
+      rw [← this, he.2]
+      simp
+    · simp only [hm, if_false]
+      cases hh : f.hits k with
+      | false => simp
+      | true =>
+        simp only [if_true]
+        cases hlk : lookup st k with
+        | none => rfl
+        | some v =>
+          exfalso
+          apply hm
+          have hmem := mem_of_lookup hlk
+          exact List.mem_map.2 ⟨(k, v), by simp [clear, List.mem_filter, hmem, hh], rfl⟩
+  · intro q hq
+    have hq' : dbView (db.recordClear (clear st f).2) q ≠ none := hq
+    rw [dbView_recordClear] at hq'
+    by_cases hm : q ∈ (clear st f).2.map (fun e => renderK e.1)
+    · simp [hm] at hq'
+    · simp only [hm, if_false] at hq'
+      exact h.image q hq'
+  · show NodupKeys (db.recordClear (clear st f).2).rows
+    rw [recordClear_rows]; exact h.rowsNodup
+  · exact List.Nodup.sublist (List.Sublist.map _ List.filter_sublist) h.storeNodup
+
+theorem persist_flush (st : Store) (db : Db) (h : Persist ⟨st, db⟩) : Persist ⟨st, db.flush⟩ := by
+  refine ⟨fun k hk => ?_, fun q hq => ?_, h.safe, nodup_flush h.rowsNodup, h.storeNodup⟩
+  · show dbView db.flush (renderK k) = lookup st k
+    rw [dbView_flush]; exact h.view k hk
+  · have hq' : dbView db.flush q ≠ none := hq
+    rw [dbView_flush] at hq'
+    exact h.image q hq'
+
+/-! ### put -/
+
+theorem flatMap_congr'' {α β} (f g : α → List β) : ∀ (l : List α), (∀ a ∈ l, f a = g a) → l.flatMap f = l.flatMap g := by
+  intro l
+  induction l with
+  | nil => intro _; rfl
+  | cons a r ih =>
+    intro h
+    simp only [List.flatMap_cons]
+    rw [h a (by simp), ih (fun x hx => h x (by simp [hx]))]
+
+theorem foldl_inv {α β} (P : β → Prop) (f : β → α → β) : ∀ (l : List α),
+    (∀ b a, a ∈ l → P b → P (f b a)) → ∀ b, P b → P (l.foldl f b) := by
+  intro l
+  induction l with
+  | nil => intro _ b hb; exact hb
+  | cons x r ih =>
+    intro h b hb
+    simp only [List.foldl_cons]
+    exact ih (fun b a ha => h b a (by simp [ha])) _ (h b x (by simp) hb)
+
+/-- the items of the modified settings, in order -/
+def modEntries (m : List (String × String × Setting)) : List (Key × String) :=
+  m.flatMap fun x => x.2.2.map fun e => (⟨x.1, x.2.1, e.1⟩, e.2)
+
+theorem upsertAll_append (s : AList κ) (a b : List (κ × String)) :
+    upsertAll s (a ++ b) = upsertAll (upsertAll s a) b := by
+  simp [upsertAll, List.foldl_append]
+
+/-- `put_broadcast` sets exactly the items of the settings it reports as modified, in that order -/
+theorem put_store (known : List String) (st : Store) (points nss : List String) (settings : List Setting) :
+    (put known st points nss settings).store = upsertAll st (modEntries (put known st points nss settings).modified) ∧
+    ∀ m ∈ (put known st points nss settings).modified, m.2.2 ∈ settings := by
+  unfold put
+  apply foldl_inv (fun acc : PutResult => acc.store = upsertAll st (modEntries acc.modified) ∧
+      ∀ m ∈ acc.modified, m.2.2 ∈ settings)
+  · intro acc setting hset hacc
+    apply foldl_inv (fun acc : PutResult => acc.store = upsertAll st (modEntries acc.modified) ∧
+      ∀ m ∈ acc.modified, m.2.2 ∈ settings) _ _ _ _ hacc
+    intro acc p _ hacc
+    cases putPoint p with
+    | none =>
+      simp only
+      refine foldl_inv (fun acc : PutResult => acc.store = upsertAll st (modEntries acc.modified) ∧
+        ∀ m ∈ acc.modified, m.2.2 ∈ settings) _ _ ?_ _ ?_
+      · intro acc ns _ hacc
+        by_cases hk : known.contains ns = true
+        · simp only [hk, if_true]; exact hacc
+        · simp only [hk, Bool.false_eq_true, if_false]; exact hacc
+      · exact hacc
+    | some q =>
+      simp only
+      apply foldl_inv (fun acc : PutResult => acc.store = upsertAll st (modEntries acc.modified) ∧
+        ∀ m ∈ acc.modified, m.2.2 ∈ settings) _ _ _ _ hacc
+      intro acc ns _ hacc
+      by_cases hk : known.contains ns = true
+      · simp only [hk, Bool.not_true, Bool.false_eq_true, if_false]
+        refine ⟨?_, ?_⟩
+        · simp only [modEntries, List.flatMap_append, List.flatMap_cons, List.flatMap_nil, List.append_nil]
+          rw [upsertAll_append, hacc.1]
+          rfl
+        · intro m hm
+          rcases List.mem_append.1 hm with h1 | h1
+          · exact hacc.2 m h1
+          · simp only [List.mem_singleton] at h1
+            subst h1; exact hset
+      · simp only [hk, Bool.not_false, if_true]; exact hacc
+  · exact ⟨by simp [modEntries, upsertAll], by simp⟩
+
+theorem changes_all (m : List (String × String × Setting)) :
+    m.flatMap (changes true) = (modEntries m).map fun e => (renderK e.1, e.2) := by
+  induction m with
+  | nil => rfl
+  | cons x r ih =>
+    simp only [List.flatMap_cons, modEntries, List.map_append, List.map_map] at ih ⊢
+    rw [ih]
+    congr 1
+
+/-! ### load -/
+
+theorem keys_upsertAll (L : List (κ × String)) : ∀ (s : AList κ) (x : κ),
+    x ∈ (upsertAll s L).map (·.1) ↔ x ∈ s.map (·.1) ∨ x ∈ L.map (·.1) := by
+  induction L with
+  | nil => intro s x; simp [upsertAll]
+  | cons e r ih =>
+    intro s x
+    simp only [upsertAll, List.foldl_cons] at ih ⊢
+    rw [ih, keys_upsert]
+    simp only [List.map_cons, List.mem_cons]
+    constructor
+    · rintro ((h | h) | h)
+      · exact Or.inr (Or.inl h)
+      · exact Or.inl h
+      · exact Or.inr (Or.inr h)
+    · rintro (h | h | h)
+      · exact Or.inl (Or.inr h)
+      · exact Or.inl (Or.inl h)
+      · exact Or.inr h
+
+theorem nodup_map_of_inj_on {α β} (f : α → β) : ∀ (l : List α), l.Nodup →
+    (∀ a ∈ l, ∀ b ∈ l, f a = f b → a = b) → (l.map f).Nodup := by
+  intro l
+  induction l with
+  | nil => intro _ _; simp
+  | cons x r ih =>
+    intro hn hinj
+    simp only [List.nodup_cons] at hn
+    simp only [List.map_cons, List.nodup_cons]
+    refine ⟨?_, ih hn.2 (fun a ha b hb => hinj a (by simp [ha]) b (by simp [hb]))⟩
+    intro hm
+    obtain ⟨y, hy, hxy⟩ := List.mem_map.1 hm
+    have := hinj y (by simp [hy]) x (by simp) hxy
+    subst this
+    exact hn.1 hy
+
+theorem load_eq (rows : AList DbKey) : load rows = upsertAll [] (rows.map fun e => (parseK e.1, e.2)) := by
+  unfold load upsertAll
+  rw [List.foldl_map]
+  rfl
+
+/-- loading a table whose keys are distinct renderings of safe key paths gives back, item by item,
+what the table holds -/
+theorem load_spec (rows : AList DbKey) (hn : NodupKeys rows)
+    (himg : ∀ q ∈ rows.map (·.1), ∃ k, SafeKey k ∧ q = renderK k) :
+    (∀ k, SafeKey k → lookup (load rows) k = lookup rows (renderK k)) ∧
+    (∀ k ∈ (load rows).map (·.1), SafeKey k) ∧ NodupKeys (load rows) := by
+  have hP : NodupKeys (rows.map fun e => (parseK e.1, e.2)) := by
+    unfold NodupKeys at *
+    rw [List.map_map]
+    have : ((fun x : Key × String => x.1) ∘ fun e : DbKey × String => (parseK e.1, e.2)) = parseK ∘ (·.1) := rfl
+    rw [this, ← List.map_map]
+    apply nodup_map_of_inj_on parseK _ hn
+    intro a ha b hb hab
+    obtain ⟨ka, hka, rfl⟩ := himg a ha
+    obtain ⟨kb, hkb, rfl⟩ := himg b hb
+    rw [parseK_renderK ka hka, parseK_renderK kb hkb] at hab
+    rw [hab]
+  have hkeys : ∀ k ∈ (load rows).map (·.1), SafeKey k := by
+    intro k hk
+    rw [load_eq, keys_upsertAll] at hk
+    rcases hk with h | h
+    · cases h
+    · rw [List.map_map] at h
+      obtain ⟨e, he, rfl⟩ := List.mem_map.1 h
+      obtain ⟨k0, hk0, hq⟩ := himg e.1 (List.mem_map.2 ⟨e, he, rfl⟩)
+      show SafeKey (parseK e.1)
+      rw [hq, parseK_renderK k0 hk0]; exact hk0
+  refine ⟨?_, hkeys, ?_⟩
+  · intro k hk
+    rw [load_eq, lookup_upsertAll _ hP]
+    have : lookup (rows.map fun e => (parseK e.1, e.2)) k = lookup rows (renderK k) := by
+      apply lookup_ext_of_mem hP hn
+      intro v
+      constructor
+      · intro hm
+        obtain ⟨e, he, heq⟩ := List.mem_map.1 hm
+        injection heq with h1 h2
+        obtain ⟨k0, hk0, hq⟩ := himg e.1 (List.mem_map.2 ⟨e, he, rfl⟩)
+        rw [hq, parseK_renderK k0 hk0] at h1
+        subst h1
+        have : e = (renderK k0, v) := by
+          obtain ⟨e1, e2⟩ := e
+          simp only at hq h2
+          rw [hq, h2]
+        rw [← this]; exact he
+      · intro hm
+        exact List.mem_map.2 ⟨(renderK k, v), hm, by simp [parseK_renderK k hk]⟩
+    rw [this]
+    cases lookup rows (renderK k) <;> rfl
+  · rw [load_eq]
+    exact nodup_upsertAll _ (by simp [NodupKeys])
+
+theorem persist_restart (st : Store) (db : Db) (h : Persist ⟨st, db⟩) :
+    Persist ⟨load db.flush.rows, db.flush⟩ ∧ ∀ k, lookup (load db.flush.rows) k = lookup st k := by
+  have hf := persist_flush st db h
+  have himg : ∀ q ∈ db.flush.rows.map (·.1), ∃ k, SafeKey k ∧ q = renderK k := by
+    intro q hq
+    obtain ⟨e, he, rfl⟩ := List.mem_map.1 hq
+    have hl : lookup db.flush.rows e.1 = some e.2 := lookup_of_mem hf.rowsNodup (by simpa using he)
+    apply h.image
+    rw [← lookup_flush, hl]
+    simp
+  obtain ⟨h1, h2, h3⟩ := load_spec db.flush.rows hf.rowsNodup himg
+  have hsame : ∀ k, lookup (load db.flush.rows) k = lookup st k := by
+    intro k
+    by_cases hk : SafeKey k
+    · rw [h1 k hk, lookup_flush]; exact h.view k hk
+    · rw [lookup_eq_none_of_not_mem (fun hm => hk (h2 k hm)),
+          lookup_eq_none_of_not_mem (fun hm => hk (h.safe k hm))]
+  refine ⟨⟨?_, hf.image, h2, hf.rowsNodup, h3⟩, hsame⟩
+  intro k hk
+  show dbView db.flush (renderK k) = lookup (load db.flush.rows) k
+  rw [hsame k]
+  exact hf.view k hk
+
+/-! ### histories -/
+
+/-- every key path set by the operation is representable in the `key` column -/
+def SafeOp : Op → Prop
+  | .put _ _ sets => ∀ s ∈ sets, ∀ e ∈ s, SafePath e.1
+  | _ => True
+
+instance (op : Op) : Decidable (SafeOp op) := by
+  cases op <;> unfold SafeOp <;> infer_instance
+
+theorem persist_step (known : List String) (s : State) (op : Op) (hop : SafeOp op) (h : Persist s) :
+    Persist (step true known s op) := by
+  obtain ⟨st, db⟩ := s
+  cases op with
+  | put ps nss sets =>
+    obtain ⟨h1, h2⟩ := put_store known st ps nss sets
+    have hsafe : ∀ e ∈ modEntries (put known st ps nss sets).modified, SafeKey e.1 := by
+      intro e he
+      simp only [modEntries, List.mem_flatMap, List.mem_map] at he
+      obtain ⟨m, hm, x, hx, rfl⟩ := he
+      exact hop _ (h2 m hm) x hx
+    have := persist_upsertAll _ st db hsafe h
+    simp only [step, Db.recordPut]
+    rw [h1, changes_all]
+    exact this
+  | clear f => exact persist_clear st db f h
+  | expire c =>
+    simp only [step, expire]
+    by_cases hem : (expirePoints st c).isEmpty = true
+    · simp only [hem, if_true]
+      exact h
+    · simp only [hem, Bool.false_eq_true, if_false]
+      exact persist_clear st db _ h
+  | flush => exact persist_flush st db h
+  | restart => exact (persist_restart st db h).1
+
+theorem persist_run (known : List String) : ∀ (ops : List Op) (s : State),
+    (∀ op ∈ ops, SafeOp op) → Persist s → Persist (ops.foldl (step true known) s) := by
+  intro ops
+  induction ops with
+  | nil => intro s _ h; exact h
+  | cons op r ih =>
+    intro s hs h
+    simp only [List.foldl_cons]
+    exact ih _ (fun o ho => hs o (by simp [ho])) (persist_step known s op (hs op (by simp)) h)
+
+/-- with single-item settings the first-item-only change iterator records everything -/
+def SingleItems : Op → Prop
+  | .put _ _ sets => ∀ s ∈ sets, s.length ≤ 1
+  | _ => True
+
+instance (op : Op) : Decidable (SingleItems op) := by
+  cases op <;> unfold SingleItems <;> infer_instance
+
+theorem step_single (known : List String) (s : State) (op : Op) (h : SingleItems op) :
+    step false known s op = step true known s op := by
+  cases op with
+  | put ps nss sets =>
+    simp only [step, Db.recordPut]
+    have hm := (put_store known s.store ps nss sets).2
+    have : (put known s.store ps nss sets).modified.flatMap (changes false) =
+        (put known s.store ps nss sets).modified.flatMap (changes true) := by
+      apply flatMap_congr''
+      intro m hmem
+      have hl : m.2.2.length ≤ 1 := h _ (hm m hmem)
+      simp only [changes, Bool.false_eq_true, if_false, if_true]
+      rw [List.take_of_length_le hl]
+    rw [this]
+  | clear f => rfl
+  | expire c => rfl
+  | flush => rfl
+  | restart => rfl
+
 end CylcModel.Bcast
